@@ -981,12 +981,44 @@ impl<'lexer> Lexer<'lexer> {
     while let Some(ch) = self.char_at(offset) {
       if chars.contains(&ch) {
         return true;
-      } else if !is_whitespace(ch) {
+      } else if let Some(length) = self.comment_length(offset) {
+        // comments are skipped like white spaces
+        offset += length;
+      } else if is_whitespace(ch) {
+        offset += 1;
+      } else {
         return false;
       }
-      offset += 1;
     }
     false
+  }
+
+  /// Returns the number of characters of the comment that begins at specified offset
+  /// from the current position, or `None` when there is no comment.
+  fn comment_length(&self, offset: usize) -> Option<usize> {
+    match (self.char_at(offset), self.char_at(offset + 1)) {
+      (Some('/'), Some('/')) => {
+        let mut length = 2;
+        while let Some(ch) = self.char_at(offset + length) {
+          if ch == '\n' {
+            break;
+          }
+          length += 1;
+        }
+        Some(length)
+      }
+      (Some('/'), Some('*')) => {
+        let mut length = 2;
+        while let Some(ch) = self.char_at(offset + length) {
+          if ch == '*' && self.char_at(offset + length + 1) == Some('/') {
+            return Some(length + 2);
+          }
+          length += 1;
+        }
+        Some(length)
+      }
+      _ => None,
+    }
   }
 }
 
